@@ -693,14 +693,18 @@ func TestDiscreteGamma(t *testing.T) { pbt.Run(t, genDG, checkDG) }
 // ---- command line tier: goalign build weightboot ---------------------------------------------
 
 type cliCase struct {
-	L      int      `json:"L"`
-	Rows   int      `json:"rows"`
-	N      int      `json:"n"`
-	Seed   int64    `json:"seed"`
-	Format string   `json:"format"` // fasta | phylip | phylip-multi | stdin
-	L2     int      `json:"L2"`     // phylip-multi: length of the second alignment of the file
-	ToFile bool     `json:"tofile"`
-	Seqs   []string `json:"seqs"`
+	L      int    `json:"L"`
+	Rows   int    `json:"rows"`
+	N      int    `json:"n"`
+	Seed   int64  `json:"seed"`
+	Format string `json:"format"` // fasta | phylip | phylip-multi | stdin
+	L2     int    `json:"L2"`     // phylip-multi: length of the second alignment of the file
+	ToFile bool   `json:"tofile"`
+	// Stale: the -o file exists already, with a longer content of an earlier run
+	Stale bool `json:"stale,omitempty"`
+	// Layout: presentation of the FASTA input (wrapped lines, blank-separated blocks, CRLF ...)
+	Layout cli.Layout `json:"layout"`
+	Seqs   []string   `json:"seqs"`
 }
 
 func phylipText(rows []string) string {
@@ -734,6 +738,10 @@ func TestCLI(t *testing.T) {
 			}
 		}
 		c.ToFile = rapid.IntRange(0, 3).Draw(t, "tofile") == 0
+		c.Stale = c.ToFile && rapid.Bool().Draw(t, "stale")
+		if c.Format == "fasta" || c.Format == "stdin" {
+			c.Layout = cli.DrawLayout(t)
+		}
 		for i := 0; i < c.Rows; i++ {
 			// nucleotides with at least one unambiguous letter first
 			c.Seqs = append(c.Seqs, "A"+gen.SeqN(t, "ACGT-N", c.L-1))
@@ -748,9 +756,9 @@ func TestCLI(t *testing.T) {
 		stdin := ""
 		switch c.Format {
 		case "fasta":
-			args = append(args, "-i", cli.TempFile(dir, ".fa", cli.Fasta(rows)))
+			args = append(args, "-i", cli.TempFile(dir, ".fa", cli.FastaLayout(rows, c.Layout)))
 		case "stdin":
-			stdin = cli.Fasta(rows)
+			stdin = cli.FastaLayout(rows, c.Layout)
 		case "phylip":
 			args = append(args, "-p", "-i", cli.TempFile(dir, ".phy", phylipText(c.Seqs)))
 		case "phylip-multi":
@@ -765,6 +773,10 @@ func TestCLI(t *testing.T) {
 		if c.ToFile {
 			outfile = filepath.Join(dir, fmt.Sprintf("w%d_%d_%d.txt", c.L, c.N, c.Seed))
 			args = append(args, "-o", outfile)
+			if c.Stale {
+				// longer than anything the command writes (about 9 bytes per weight)
+				cli.StaleFile(outfile, c.N*c.L/4+10)
+			}
 		}
 		r := cli.Run(stdin, args...)
 		if r.Exit != 0 {
@@ -818,6 +830,12 @@ func TestCLI(t *testing.T) {
 		o.NonTrivial = true
 		o.Class("input=%s", c.Format)
 		o.Class("tofile=%v", c.ToFile)
+		if c.Stale {
+			o.Class("-o file existed (stale, longer)")
+		}
+		if !c.Layout.Plain() {
+			o.Class("FASTA input in another layout")
+		}
 		if c.N > 1 {
 			o.Class("n>1")
 		}
